@@ -271,3 +271,16 @@ fn c09_trailing_zeros_blocks() {
         }
     }
 }
+
+// `Config::truncate_incomplete_record` (a ghost constant in the replay
+// harnesses): the field, or true.
+// @harness name=c10_cfg_truncate_accessor prop=C10 tier=quick timeout=300
+#[kani::proof]
+fn c10_cfg_truncate_accessor() {
+    let t: Option<bool> = kani::any();
+    let c = Config { truncate_incomplete_record: t, ..Default::default() };
+    assert!(c.truncate_incomplete_record() == t.unwrap_or(true), "truncate_incomplete_record is not 'the field, or true'");
+    kani::cover!(t.is_none(), "default: truncation enabled");
+    kani::cover!(t == Some(false), "truncation disabled");
+    core::mem::forget(c);
+}
